@@ -1,7 +1,8 @@
 (* Props/C05.v — C05: IPFIX sets decode exactly as RFC 7011 and the governing template say.
    Theorems only. *)
-From NF Require Import Base Nom Types Layout Value Ipfix Interp Rfc.
-From NF Require Import LayoutFacts C03Proofs DecodeFacts VarFacts CacheFacts TotalFacts.
+From NF Require Import Base Nom Types Layout Value Ipfix Interp Rfc IxStream.
+From NF Require Import LayoutFacts C03Proofs DecodeFacts VarFacts CacheFacts TotalFacts IxStreamFacts.
+From Coq Require Import Lia.
 Open Scope list_scope.
 
 (* the message header is read at the RFC 7011 offsets *)
@@ -77,3 +78,62 @@ Example C05_example :
           (0, ipfix_enterprise, VVec []);               (1, ipfix_from_u16 7, VNum (U16 443));
           (0, ipfix_enterprise, VVec [x7a]);            (1, ipfix_from_u16 7, VNum (U16 53)) ]%N, [x00]) [].
 Proof. vm_compute. reflexivity. Qed.
+
+(* The whole message.  Spec/IxStream.v describes a message the way an exporting process builds
+   it: a header and a list of sets, each one template record, one options template record, or
+   the data records of the template the collector holds for that id followed by padding shorter
+   than the smallest record; variable-length values are sent with either prefix form.  It says
+   what a collecting process must report for it (expect_isets: every value interpreted in its
+   element's type, records in order, entries in template order, enterprise values verbatim) and
+   what it must remember (learn_iset: last definition wins, per map).  For every conformant
+   message, every collector state and any bytes after the message: the parser returns exactly
+   that, leaves exactly those bytes, and ends in exactly that state.  No bound on the number of
+   sets, records, fields or value lengths. *)
+Theorem C05_message : forall puf s h l xs s' rest,
+  wf_vals ipfix_header_layout [] h ->
+  get_field ipfix_header_layout h "length" = (16 + lenN (enc_isets s l))%N ->
+  conformant_isets puf s l -> expect_isets s l = Some (xs, s') ->
+  parse_ipfix puf s (enc_ix_message s h l ++ rest) = (Ok {| ix_header := h; ix_sets := xs |} rest, s').
+Proof. exact decode_message. Qed.
+Print Assumptions C05_message.
+
+(* the data set alone: records of different sizes, every record reported, padding left over *)
+Theorem C05_data_set : forall puf fs recs ents pad,
+  fs <> [] -> Forall (iknown puf) fs -> recs <> [] -> interp_irecords fs recs = Some ents ->
+  (0 < min_rec fs)%N -> (lenN pad < min_rec fs)%N ->
+  parse_idata puf fs (List.concat (map (enc_irecord fs) recs) ++ pad) = Ok (ents, pad) [].
+Proof. exact decode_idata. Qed.
+Print Assumptions C05_data_set.
+
+(* non-vacuity of C05_message: from the empty cache, a template set (variable-length enterprise
+   element, sourceTransportPort/2), an options template set, then a data set with three records
+   of different sizes (long prefix form in the second) and one padding byte *)
+Example C05_message_example :
+  let f1 := {| if_num := 100; if_type := ipfix_enterprise; if_len := 65535; if_ent := Some 9 |}%N in
+  let f2 := {| if_num := 7; if_type := ipfix_from_u16 7; if_len := 2; if_ent := None |}%N in
+  let f3 := {| if_num := 4; if_type := ipfix_from_u16 4; if_len := 1; if_ent := None |}%N in
+  let t := {| it_id := 256; it_count := 2; it_fields := [f1; f2]; it_pad := [] |}%N in
+  let o := {| io_id := 257; io_count := 2; io_scope_count := 1; io_fields := [f3; f2]; io_pad := [x00; x00] |}%N in
+  let l := [ STemplate t; SOTemplate o;
+             SData 256 [ [(false, [x61; x62; x63]); (false, [x00; x50])];
+                         [(true, []); (false, [x01; xbb])];
+                         [(false, [x7a]); (false, [x00; x35])] ] [x00];
+             SData 257 [ [(false, [x06]); (false, [x00; x16])] ] [] ]%N in
+  conformant_isets true ix_empty l
+  /\ exists xs s', expect_isets ix_empty l = Some (xs, s') /\ length xs = 4%nat
+  /\ wf_vals ipfix_header_layout [] [10; 16 + lenN (enc_isets ix_empty l); 1; 2; 3]%N.
+Proof.
+  cbv zeta.
+  assert (Hk : forall fs, Forall (iknown true) fs) by (intro fs; apply Forall_forall; intros ? _ _ _; reflexivity).
+  split.
+  - cbn [conformant_isets]. repeat split.
+    all: try apply Hk.
+    all: try (timeout 5 (vm_compute; reflexivity)).
+    all: try (timeout 5 (vm_compute; discriminate)).
+    + repeat (apply Forall_cons; [unfold wf_ifield; cbn [if_len if_num if_ent if_type]; repeat split; vm_compute; reflexivity|]). apply Forall_nil.
+    + cbn. lia.
+    + repeat (apply Forall_cons; [unfold wf_ifield; cbn [if_len if_num if_ent if_type]; repeat split; vm_compute; reflexivity|]). apply Forall_nil.
+    + left. vm_compute. discriminate.
+    + right. vm_compute. discriminate.
+  - vm_compute. eexists. eexists. repeat split; reflexivity.
+Qed.
